@@ -25,7 +25,7 @@ def resolve_names(ctx):
     def tys(f):
         return [f["locals"][i]["ty"] for i in range(1, f["arg_count"] + 1)]
     conv = [f for f in reach if tys(f) == ["&serde_json::Value"] and f["locals"][0]["ty"].startswith("std::result::Result<interchange::cjson::")
-            and not f.get("impl_trait")]
+            and (not f.get("impl_trait") or f.get("impl_trait") in ("std::convert::TryFrom", "std::convert::From"))]
     tree_ty = None
     if len(conv) == 1:
         CONVERT = conv[0]["path"]
@@ -274,7 +274,7 @@ def check_writer(ctx, rule_struct, rule_same_encoder):
                         int_tys.add({"I64": "i64", "U64": "u64"}.get(l2.path[2][1], "?"))
                     else:
                         int_tys.add("?" + leaf_s(b, l2))
-    ctx.inst(rule_struct, "numbers are itoa-formatted integers", len(nums) >= 2 and int_tys == {"i64", "u64"}, "%d itoa emit site(s) formatting %s" % (len(nums), sorted(int_tys)))
+    ctx.inst(rule_struct, "numbers are itoa-formatted integers", len(nums) >= 1 and int_tys == {"i64", "u64"}, "%d itoa emit site(s) formatting %s" % (len(nums), sorted(int_tys)))
     # the escaped strings: value and key, same derivation  to_string(&serde_json::Value::String(x.clone()))
     derivs = []
     for (b, i, t, cls, detail) in strs:
@@ -319,7 +319,7 @@ def check_convert(ctx, rule_num, rule_obj):
     bodies = [b] + [body_of(fx, ck) for ck in fx.closures_of.get(f["key"], [])]
     for g in fx.doc["fns"]:
         # closures of inlined private helpers
-        if g["kind"] == "Closure" and fx.root_of(g)["path"].startswith("interchange::cjson::") and body_of(fx, g["key"]) not in bodies \
+        if g["kind"] == "Closure" and body_of(fx, g["key"]) not in bodies \
                 and fx.root_of(g)["key"] in {blk.get("origin_key") for blk in b.blocks}:
             bodies.append(body_of(fx, g["key"]))
     cg = ctx.cg
@@ -456,7 +456,8 @@ def check_convert(ctx, rule_num, rule_obj):
             okarr, how = True, "push loop without early exit"
     for i, t in b.calls_named("std::iter::Iterator::map"):
         fnc = [op_const(a) for a in t["args"][1:]]
-        if any(c and c.get("fn") == CONVERT for c in fnc):
+        cf_ = fx.fn_opt(CONVERT)
+        if any(c and (c.get("fn") == CONVERT or c.get("fn_args") == CONVERT or (cf_ is not None and c.get("fn_key") == cf_["key"])) for c in fnc):
             src = b.trace(t["args"][0])
             if src and not any(x in " ".join(l.via) for l in src for x in ("take", "skip", "filter", "step_by")):
                 # consumed by collect (into Result<Vec<_>,_>) or by a for loop that pushes every element
@@ -473,7 +474,11 @@ def check_public_canonicalize(ctx, rule):
         return
     b = body_of(fx, f["key"])
     ctx.touch_body(b)
-    calls = [callee_name(t) for (i, t) in b.calls()]
+    # a call is named by the function it resolves to (a conversion written as a trait impl is called as `TryFrom::try_from`)
+    def _nm(t):
+        g = fx.fns.get(t.get("resolved_key") or t.get("callee_key"))
+        return g["path"] if g is not None else callee_name(t)
+    calls = [_nm(t) for (i, t) in b.calls()]
     allowed = {CONVERT, WRITE, "std::vec::Vec::new", "std::ops::Try::branch", "std::ops::FromResidual::from_residual"}
     extra = [c for c in calls if c not in allowed]
     ctx.inst(rule, "private canonicalize = write(convert(value)) with no post-processing", not extra and CONVERT in calls and WRITE in calls,
@@ -697,3 +702,27 @@ def check_codec(ctx, rule):
         sorted(statics), len(enc), len(dec)))
     ctx.inst(rule, "both directions present", bool(enc) and bool(dec), "encode sites: %s; decode sites: %s" % (
         sorted({e[0] for e in enc}), sorted({d[0] for d in dec})))
+
+
+def check_member_order(ctx, rule):
+    """Members and elements leave the writer in the order their container iterates them (a BTreeMap<String, _>: code point
+    order; a Vec: document order): between the container held by `self` and the recursive write there is nothing but plain
+    iteration - no collect-and-sort, no reversal, no re-keying."""
+    fx = ctx.fx
+    wf = fx.fn_opt(WRITE)
+    if wf is None:
+        ctx.bad(rule, "member order", "canonical writer not found (failing closed)")
+        return
+    b = ctx.region(None, policy="private", key=wf["key"], ps=True)
+    PLAIN = {"Iterator::next", "IntoIterator::into_iter", "BTreeMap::iter", "slice::iter", "Vec::iter", "Deref::deref", "Iterator::enumerate", "Vec::as_slice",
+             "Iterator::by_ref", "Iterator::peekable", "Peekable::next", "BTreeMap::into_iter"}
+    n = 0
+    for (i, t) in b.calls_named(WRITE):
+        lv = b.trace(t["args"][0])
+        n += 1
+        ok = bool(lv) and all(l.kind == "param" and l.data == 1 and l.path[:1] in ((("v", "Object"),), (("v", "Array"),)) and set(l.via) <= PLAIN for l in lv)
+        kind = "object members" if any(l.path[:1] == (("v", "Object"),) for l in lv) else "array elements"
+        ctx.inst(rule, "%s are written in the container's own order" % kind, ok,
+                 "written value <- {%s}" % ", ".join("%s via %s" % (leaf_s(b, l).split("  via")[0], list(l.via)) for l in lv), t["at"])
+    if n < 2:
+        ctx.bad(rule, "member order", "expected the recursive write of array elements and of object members, found %d recursive call(s)" % n)
